@@ -9,6 +9,7 @@ import (
 	"io"
 	"net"
 	"os"
+	"sort"
 	"strings"
 	"testing"
 	"time"
@@ -88,6 +89,10 @@ type c38cfg struct {
 	// having sent a byte for it (the shared server model only closes after a first response segment)
 	drop        map[string]time.Duration
 	readTimeout time.Duration // PipelineClient.ReadTimeout
+	// seqStart: the main thread starts each caller thread at the start time of its first call (in start order) instead of
+	// starting all of them at time 0 and letting each sleep: the same histories without the (number of threads)! orders in which
+	// the threads go to sleep at time 0
+	seqStart bool
 }
 
 // c38tlsUnbuildable is the harness's reference for "no TLS client configuration exists for this PipelineClient
@@ -234,8 +239,21 @@ func c38body(cfg c38cfg) func() {
 			return ""
 		})
 		var wg msync.WaitGroup
-		for i := range cfg.calls {
+		order := make([]int, len(cfg.calls))
+		for i := range order {
+			order[i] = i
+		}
+		if cfg.seqStart {
+			sort.SliceStable(order, func(a, b int) bool { return cfg.calls[order[a]][0].after < cfg.calls[order[b]][0].after })
+		}
+		for _, i := range order {
 			rs := perCaller[i]
+			if cfg.seqStart {
+				if d := rs[0].c.after - c04vNow(); d > 0 {
+					mtime.Sleep(d)
+				}
+				rs[0].c.after = 0
+			}
 			daemon := false // a thread that makes a Do call (no deadline) may legitimately never return
 			for _, r := range rs {
 				daemon = daemon || (r.c.kind == c38Do && !cfg.waitAll)
@@ -469,10 +487,15 @@ func TestVerif_C38(t *testing.T) {
 		"configuration dimension: IsTLS with TLSConfig {nil, InsecureSkipVerify, ServerName} x Addr {host:port, host, bare IPv6, two colons} (12 configurations; Dial hands out a connection with a Handshake method, so no real handshake runs): " +
 		"configurations for which a TLS configuration exists (harness reference c38tlsUnbuildable) run timeout-then-further-calls and refused-then-connects histories on the cached configuration, " +
 		"the ones without run histories of early-failing calls (3 sequential calls of one thread; 2 threads x 2 calls, staggered and simultaneous; a Do call followed by deadline calls) next to the worker's retry loop (Logger.Printf takes 10 ms of virtual time); " +
+		"connection-death dimension: MaxPendingRequests 2-3, a connection that dies at 500 ms with k = 2..MaxPendingRequests+2 requests written and unanswered (reader holds one, up to MaxPendingRequests queued for the reader, writer holds one) in 4 ways " +
+		"(server closes mid-response / closes without a byte / answers the first with Connection: close and closes / never answers and the client's ReadTimeout fails the read: timeout-class error, reconnection throttled by 1 s), " +
+		"x every subset W (|W| <= 3; quick: |W| <= 2, and 3 for k = 3) of the in-flight calls still waiting at the death (3 s deadlines; the others have timed out at 100 ms and left their requests in the queues) " +
+		"x a follow-up call F on the re-established connection (from a new thread at 600 ms, or as the next call of the first waiting thread), answered at once: 584 scenarios (quick 440); caller threads are started one at a time by the main thread; " +
 		"all schedules, select choices and timer-first orders up to the deviation bound; " +
 		"oracle per execution: every deadline call returns (a call stuck before its request was queued, i.e. where no timer can release it, and a call that cannot start because an earlier call of its thread is stuck are classes of their own), with its own response (X-Id and body), ErrTimeout, ErrPipelineOverflow or a connection error (in a configuration without TLS configuration: the client's server-name error wrapping the address error; that error anywhere else is a violation), and the latest instant at which it was found blocked is <= its deadline (+ measured pre-arming slack); " +
 		"no request of a call that failed with ErrPipelineOverflow was received by the server; non-trivial: executions with >=1 deviation")
 	r.Assume("mcrt shim semantics (litmus-tested)", "sync.Pool modelled as deterministic LIFO", "harness net.Conn whose peer is a serial server model on the virtual clock (writes never block)",
+		"connection-death scenarios: at most 3 calls are still waiting when the connection dies (the remaining in-flight requests belong to calls that have already returned ErrTimeout); deviation bound 0 there = all orders of the runnable threads at every blocking step, no preemptions / timer-first",
 		"'by its deadline plus scheduling slack' = mcrt.BlockedUntil() <= deadline, plus virtual time that elapsed while the caller was runnable between entering the call and arming its timer",
 		"a connection with a Handshake method is used by dialAddr as it is (TLS handshakes themselves are outside this check)",
 		"'connection error' includes the error of a connection that cannot be configured (no TLS server name derivable), decided by the harness's own reference with net.SplitHostPort as authority",
@@ -611,20 +634,26 @@ func TestVerif_C38(t *testing.T) {
 								wait += string(rune('A' + i))
 							}
 						}
-						// tiers: quick = MaxPendingRequests 2 with the reader's queue full at the death (k = 3, 4), |W| = 2, bound 0 (bound 1 for one
-						// scenario per way of dying); thorough = everything, bound 1 for the quick scenarios, bound 0 for the others
-						quick := mp == 2 && k >= 3 && nw == 2
-						if nw > 3 || (!quick && !r.Thorough()) {
+						// tiers (deviation bound 0 = every order of the threads that are runnable whenever the running thread blocks, which is where the
+						// threads woken by the death, the new connection's reader/writer and F interleave): quick = |W| <= 2, and |W| = 3 for k = 3;
+						// thorough = |W| <= 3. Bound 1 for MaxPendingRequests 2, k = 3: quick = W = {C} (the only waiting call is the last one in the
+						// reader's queue at the death), thorough = |W| = 1, and |W| = 2 with F from a new thread.
+						if nw > 3 || (nw == 3 && k > 3 && !r.Thorough()) {
 							continue
 						}
 						qb, tb := 0, 0
-						if quick {
-							tb = 1
-							if k == 3 && wait == "AC" && follow == "new-thread" {
-								qb = 1
+						if mp == 2 && k == 3 {
+							if nw == 1 {
+								tb = 1
+								if wait == "C" {
+									qb = 1
+								}
+							}
+							if nw == 2 && follow == "new-thread" {
+								tb = 1
 							}
 						}
-						cfg := c38cfg{maxPending: mp, beh: map[string]c04beh{"F": {}}}
+						cfg := c38cfg{maxPending: mp, seqStart: true, beh: map[string]c04beh{"F": {}}}
 						switch mode {
 						case "cut":
 							cfg.beh["A"] = c04beh{stall: 500 * ms, cut: true}
